@@ -564,7 +564,8 @@ impl Adf {
                             ));
                         }
                     }
-                    res
+                    // an inconsistent path is skipped, the remaining paths still have to be explored
+                    Ok::<(), ()>(())
                 });
             log::trace!("results found so far:{}", result.len());
             // checked one alternative, we can now conclude that only the other option may work
